@@ -288,6 +288,26 @@ def run(ctx):
                                   "report_style=None, **kwargs); compare input tables"})
 
 
+    # statelessness of the reported results: a second call on the same instance and net reports what a fresh instance reports
+    small2 = pn.example_simple()
+    for trig in ({"max_x_ohm": 1e-3}, {"min_r_ohm": 50.}, {"overload_scaling_factor": 1e-6}):
+        try:
+            with core.quiet():
+                dg = Diagnostic()
+                r1 = dg.diagnose_network(small2, report_style=None, **trig)
+                r2 = dg.diagnose_network(small2, report_style=None)
+                rf = Diagnostic().diagnose_network(small2, report_style=None)
+        except Exception as e:      # noqa
+            ctx.note(f"repeated diagnose_network raised {type(e).__name__}: {e}")
+            continue
+        ctx.count(("repeat", json.dumps(trig)), nontrivial=sorted(r1 or {}) != sorted(rf or {}))
+        if sorted(r2 or {}) != sorted(rf or {}):
+            ctx.failure("state-leak", f"second diagnose_network call of one instance (first call with {trig}) reports {sorted(r2 or {})}, a fresh "
+                                      f"instance reports {sorted(rf or {})}",
+                        {"ops": [["new", 1], ["diagnose", 0, trig], ["diagnose", 0, {}]], "step": 2, "kind": "later-call-results",
+                         "repro": "d = Diagnostic(); d.diagnose_network(net, **trig); compare d.diagnose_network(net) with Diagnostic().diagnose_network(net)"})
+
+
 def replay(ctx, path):
     import pandapower.networks as pn
     with open(path) as f:
